@@ -19,6 +19,7 @@ EXPLANATION = (
     "every path from the leaf branch back to the outer loop there is the EOF exit or a consumed output slot.  R4: panic sites "
     "reachable from decompress* / compress* are discharged or reviewed against R1's facts."
 )
+EXPLANATION += ('  Round 4: the counter of R2 is identified by role (the local returned in Ok(..), also when stored through a &mut handed to an inlined helper); from the `no slot left` edge of every output.next() no Ok(..) return is reachable (an exhausted buffer is an error, never a truncated stream).')
 ASSUMPTIONS = ["the constant is little-endian u16 pairs as laid out by rustc on this target", "reviewed table lines confirmed by reading the code"]
 TABLES = ["huffman", "buffer", "common", "looptable", "postfix"]
 H = "libtw2_huffman::"
